@@ -238,11 +238,11 @@ def r17e(ctx):
 
 
 def run(ctx):
-    r17a(ctx)
-    r17b(ctx)
-    r17c(ctx)
-    r17d(ctx)
-    r17e(ctx)
+    ctx.guard(r17a)
+    ctx.guard(r17b)
+    ctx.guard(r17c)
+    ctx.guard(r17d)
+    ctx.guard(r17e)
 
 
 SELFTEST = {
